@@ -115,6 +115,7 @@ def step (_ : St) (op : List String) (impl : Option (List String)) : St × Strin
   match impl with
   | none => ((), "need-draws", "-")
   | some it =>
+  if it == ["hang"] then ((), "terminates", "FAIL:terminates") else
   let im := parseImpl it
   match op with
   | ["seed", _] => ((), "ok", "-")
@@ -178,7 +179,10 @@ def step (_ : St) (op : List String) (impl : Option (List String)) : St × Strin
               -- support: some position holding `e` has positive weight, or `e` is the last element
               let supp := (v.zip w).any (fun (x, wx) => x == e && wx > 0.0) || v.getLast? == some e
               verdictOf [(!v.isEmpty, "empty_raises"), (v.contains e, "pick_member"), (supp, "weighted_pick_support"),
-                (if repl then v' == v && w'.length == w.length else isPermOf (e :: v') v && w'.length + 1 == w.length, "pick_removes_one")]
+                (if repl then v' == v && w'.length == w.length else isPermOf (e :: v') v && w'.length + 1 == w.length, "pick_removes_one"),
+                -- the remaining (element, weight) pairs are the original ones minus the picked pair
+                (repl || (let pairs := v.zip (w.map Float.toBits); let rest := v'.zip (w'.map Float.toBits)
+                          pairs.any (fun q => q.1 == e && isPermOf (q :: rest) pairs)), "weighted_pick_keeps_weights_attached")]
             | _, _, _ => "FAIL:parse"
           | none, _ => "FAIL:parse"
         let out :=
@@ -359,6 +363,25 @@ def step (_ : St) (op : List String) (impl : Option (List String)) : St × Strin
         ((), out, verdict)
       | _, _ => bad
     | _ => bad
+  | "hmm" :: n :: size :: _ =>
+    -- the simplex coding of the rows refuses some matrices (zeros): not part of the model
+    if im.raised.isSome then ((), " ".intercalate it, "-") else
+    match nat? n, nat? size, splitTok ";" it with
+    | some n, some size, [st, pij, eqU, eqT, dt] =>
+      match st.mapM nat?, floats? pij, floats? eqU, floats? eqT, unitDraws (dt.filterMap parseDraw) with
+      | some st, some pij, some eqU, some eqT, some ds =>
+        let rows := (List.range n).map (fun i => (pij.drop (i * n)).take n)
+        let rowOk := rows.all (fun r => r.all (fun x => 0.0 ≤ x) && Float.abs (r.foldl (· + ·) 0.0 - 1.0) < 1e-9)
+        let verdict := verdictOf [(st.length == size, "hmm_sample_defined"), (st.all (· < n), "hmm_sample_defined"),
+          (size == 0 || (eqU.map Float.toBits == eqT.map Float.toBits), "hmm_first_state_from_equilibrium"),
+          (Float.abs (eqT.foldl (· + ·) 0.0 - 1.0) < 1e-9 && rowOk, "hmm_rows_are_probabilities")]
+        let out := if ds.length != size || dt.length != size then "draw-mismatch" else
+          match hmmSample eqU rows size ds with
+          | .ok l => join [showNats l, showFloats pij, showFloats eqU, showFloats eqT, " ".intercalate dt]
+          | .error e => errStr e
+        ((), out, verdict)
+      | _, _, _, _, _ => ((), "parse", "FAIL:parse")
+    | _, _, _ => ((), "parse", "FAIL:parse")
   | "rcont2" :: rest =>
     match splitTok ";" rest with
     | [rs, cs] =>
@@ -412,8 +435,10 @@ def step (_ : St) (op : List String) (impl : Option (List String)) : St × Strin
           -- relational tie of the permutation p-value: some count in 0..nb gives exactly this value
           let cnt := (pv * (nb + 1).toFloat).round.toUInt64.toNat - 1
           let formOk := nb == 0 || (cnt ≤ nb && (pvalueOfCount cnt nb : Float) == pv)
+          -- all tables with margins (1,1)/(1,1) have the same statistic: every replicate counts (`pvalue_all_ge`)
+          let tiesOk := !(nb > 0 && m1 == [1, 1] && m2 == [1, 1]) || pv == 1.0
           let verdict := verdictOf [(!invalid, "ctest_rejects_only_bad_tables"), (0.0 ≤ pv && pv ≤ 1.0, "pvalue_range"), (formOk, "pvalue_formula"),
-            (nb == 0 || pv > 0.0, "pvalue_range")]
+            (nb == 0 || pv > 0.0, "pvalue_range"), (tiesOk, "pvalue_all_ge")]
           ((), Hex.ofFloat stat ++ " " ++ p ++ " " ++ Hex.ofFloat df, verdict)
         | _, _, _ => ((), "parse", "FAIL:parse")
       | none, _ => ((), "parse", "FAIL:parse")
